@@ -45,5 +45,5 @@ for id in "$@"; do
   rc=$?
   nv=$(grep -c '^VIOLATION' $base/log.$id)
   nk=$(grep -c '^KNOWN-FINDING' $base/log.$id)
-  echo "MUTANT $slot $id exit=$rc violations=$nv known=$nk"
+  cp $base/log.$id $base/keep.$id.log 2>/dev/null; echo "MUTANT $slot $id exit=$rc violations=$nv known=$nk"
 done
